@@ -7,6 +7,11 @@ NOT_APPLICABLE = {
 NOTES = "See DESIGN.md. ./check <id> --tier quick|thorough; exit 0 held / 1 VIOLATION / 2 infrastructure failure (never a verdict)."
 TRUST = "Trusted: TLC 1.8, the Go harness (vdrive: rendering of stimuli to Lisp text, observation through a registered marker function), python3 orchestration. Bounded: see evidence 'rule'."
 CHECKS = {
+ "C06": {
+  "text": "Trace validation: the harness executes histories of list operations over three variables (every ordered pair of the 31 operations on lists built in five ways, plus seeded-random histories) against slip and records, after every operation, the returned value and the contents of every variable; the TLA+ acceptor ListHeapTrace (permissive reference: value the language defines + may-share identities by the language rules) replays each recorded event under TLC and rejects a wrong result, a change caused by a non-destructive function or place operation, and a change of a list that cannot share structure with the one destroyed.",
+  "design_ref": "DESIGN.md section 3 C06",
+  "note": TRUST + " Operation sequences are chosen by a seeded generator in the orchestrator (the specification judges, it does not enumerate here).",
+  "technique": "TLA+ trace acceptor (TLC) over traces recorded from the implementation"},
  "C10": {
   "text": "Model-based conformance: Generic.tla is the reference (method table -> effective method) together with an implementation-shaped cache/fast-path model whose coherence TLC checks as invariants; TLC emits one defmethod/replace/remove-method/call history per transition of the bounded state graph (VIEW includes a ghost of the cache so call-before-definition paths are distinct states) plus random walks; every history is executed against slip built from /repo and every call's method trace is compared with the trace TLC computed.",
   "design_ref": "DESIGN.md section 3 C10",
